@@ -3,6 +3,7 @@ import itertools
 import math
 import random
 import numpy as np
+from fractions import Fraction
 import numqi
 import numqi.state as ST
 from symnp import ir, scalars as S, arrays as A, facade
@@ -140,6 +141,22 @@ def replay(p):
         fn = getattr(ST, p['fn'])
         val = fn(p['d'], p['x'])
         return (not np.all(np.isfinite(val))), f"{p['fn']}({p['d']}, {p['x']}) = {val} is not finite"
+    if what == 'iso_eof_formula':
+        d = p['d']
+        xs = ([p['x']] if p.get('x') is not None else []) + list(np.linspace(1.0 / (d + 1) + 1e-6, 1.0, 400))
+        for x_ in xs:
+            if not (1.0 / (d + 1) + 2.0 ** -20 <= x_ <= 1.0):
+                continue
+            F = (1 + x_ * d * d - x_) / (d * d)
+            if F <= 4 * (d - 1) / (d * d):
+                g = (np.sqrt(F) + np.sqrt((d - 1) * (1 - F))) ** 2 / d
+                want = -g * np.log(g) - ((1 - g) * np.log(1 - g) if g < 1 else 0.0) + (1 - g) * np.log(d - 1)
+            else:
+                want = d * np.log(d - 1) * (F - 1) / (d - 2) + np.log(d)
+            got = float(ST.get_Isotropic_eof(d, x_))
+            if not abs(got - want) <= 1e-9:
+                return True, f'get_Isotropic_eof({d}, {x_!r}) = {got!r} but the published piecewise formula (Terhal-Vollbrecht) gives {want!r}'
+        return False, 'get_Isotropic_eof agrees with the published piecewise formula on the scanned values'
     if what == 'finite_scan':
         # directed: the solver's value first (if any), then the first 400 binary64 values above the separability boundary and a coarse grid
         fn = getattr(ST, p['fn'])
@@ -304,6 +321,41 @@ def run(chk):
             for xe in (float(lo_f(d)), float(hi_f(d)), 1.0, 0.0):
                 ok, what = replay({'what': 'finite', 'fn': fn, 'd': d, 'x': xe})
                 chk.add(f'{fn}({d}, {xe:.6g}) finite (ground, binary64)', [], ir.bconst(not ok), key=f'{fn} not finite at {xe:.6g}', replay=('c18', {'what': 'finite', 'fn': fn, 'd': d, 'x': xe}))
+    # ---- isotropic EOF on the entangled range: the published piecewise formula (curved up to F_c = 4(d-1)/d^2, straight line beyond), exact reals
+    for d in (2, 3) if quick else (2, 3, 4, 5):
+        chk.configurations += 1
+        lo = Fraction(1, d + 1) + Fraction(1, 2 ** 20)      # the sliver within 2^-20 of the boundary (where the code clamps 1-gamma at the smallest normal) is covered by the binary64 slice below
+        pre = [(x >= S.as_sc(lo)).n, (x <= 1).n]
+        try:
+            paths, st = H.run_paths(lambda: ST.get_Isotropic_eof(d, x), pre, extra_globals=EG, feas_timeout_ms=2000, max_paths=64)
+        except S.EngineError as e:
+            chk.engine_error(f'get_Isotropic_eof d={d} entangled range', e)
+            continue
+        chk.add_path_stats(st)
+        rp = ('c18', lambda m, d=d: {'what': 'iso_eof_formula', 'd': d, 'x': (float(m['x']) if 'x' in m else None)})
+        for pi, path in enumerate(paths):
+            ap = pre + path.pc + path.facts
+            if path.status != 'return':
+                chk.add(f'get_Isotropic_eof(d={d}) raises {type(path.value).__name__} on the entangled range (path {pi})', ap, ir.FALSE, key='get_Isotropic_eof raises', replay=rp)
+                continue
+            with path.resume():
+                n_code = len(path.ctx.aux)
+                val = S.as_sc(H.elems(path.value)[0])
+                F = (1 + x * d * d - x) / (d * d)
+                Fc = S.as_sc(Fraction(4 * (d - 1), d * d))
+                g = (F.sqrt() + ((d - 1) * (1 - F)).sqrt())
+                g = g * g / d
+                curved = -g * g.log() - (1 - g) * (1 - g).log() + (1 - g) * S.as_sc(float(np.log(d - 1)))      # log(d-1), log(d) are concrete binary64 constants in the code
+                cl = [ir.bor(ir.bnot((F <= Fc).n), H.eq_sc(val, curved))]
+                if d > 2:
+                    linear = S.as_sc(float(d * np.log(d - 1))) * (F - 1) / (d - 2) + S.as_sc(float(np.log(d)))      # d*log(d-1) is one concrete binary64 product in the code
+                    cl.append(ir.bor(ir.bnot((F > Fc).n), H.eq_sc(val, linear)))
+                else:
+                    cl.append(ir.bnot((F > Fc).n))
+                side = [c for k, c in path.side]
+                hyps = H.matched_congruence(chk, path.ctx, n_code, [], f'get_Isotropic_eof d={d} (path {pi})', 'get_Isotropic_eof != published piecewise formula', rp, kinds=('log', 'sqrt', 'recip'), base=ap + side)
+                chk.add(f'get_Isotropic_eof(d={d}, x) == curved branch for F <= 4(d-1)/d^2, straight line beyond, every x in [1/(d+1)+2^-20, 1] (path {pi})', ap + path.facts + side + hyps, ir.band_all(cl),
+                        key='get_Isotropic_eof != published piecewise formula', replay=rp)
     # ---- closed forms in binary64 just above the separability boundary (0*log(0), log of a value rounded outside its range): never NaN / inf
     from symnp.scalars import F64
     chk.stub('binary64 slice: libm log / sqrt by their C contract; the parameter is any binary64 in the stated window')
@@ -334,7 +386,11 @@ def run(chk):
                 # the same claim by solver-checked one-operation interval lemmas (composition bounds the result, hence finite)
                 from symnp import fprange
                 lemmas, root_iv = fprange.range_lemmas(v.n, {xf.n.val: (b, b * (1 + 2.0 ** -30))}, path.pc, path.ctx.aux, f'c18{fn[4]}{d}{pi}')
-                if root_iv is None:
+                if root_iv is None and fprange.INFO['infeasible']:
+                    # the path condition contradicts the proved interval of one of its own operands: the path is infeasible (feasibility was 'unknown' for z3)
+                    for lab, asm, clm in lemmas:
+                        chk.add(f'{fn}(d={d}) boundary window (infeasible path {pi}) lemma: {lab}', asm, clm, key=f'{fn} not finite next to the separability boundary', replay=rp, fallback_payloads=fb)
+                elif root_iv is None:
                     mono.meta['soft'] = False          # no interval proof on this path: the monolithic query has to decide
                 else:
                     for lab, asm, clm in lemmas:
